@@ -8,3 +8,8 @@ pub use adam::AdamOptions;
 pub(crate) use adapt::Strategy;
 pub use adapt::{StepSizeAdaptMethod, StepSizeAdaptOptions, StepSizeSettings};
 pub(crate) use dual_avg::AcceptanceRateCollector;
+
+#[cfg(nuts_rs_verif)]
+pub use adam::Adam;
+#[cfg(nuts_rs_verif)]
+pub use dual_avg::{DualAverage, DualAverageOptions};
